@@ -72,11 +72,12 @@ def impl_kinds(op, key):
         return ("err", core.err_kind(e))
 
 
-def impl_public(op, dep, x, y, bare=False, int_dtype=False, keep=True, y_interval=False):
-    import warnings
+def impl_public(op, dep, x, y, bare=False, int_dtype=False, keep=True, y_interval=False, wmode="ignore", ambient=None):
+    """wmode="error": the call is made with warnings escalated to errors and numpy floating-point errors raising"""
+    import warnings, contextlib
     try:
-        with warnings.catch_warnings():
-            warnings.simplefilter("ignore")
+        with warnings.catch_warnings(), (np.errstate(all="raise") if wmode == "error" else contextlib.nullcontext()):
+            warnings.simplefilter(wmode)
             X = pbx.stair(*x, int_dtype=int_dtype)
             if y_interval:        # the second operand handed over as an Interval OBJECT (converted by the method)
                 from pyuncertainnumber.pba.intervals.number import Interval
@@ -85,7 +86,11 @@ def impl_public(op, dep, x, y, bare=False, int_dtype=False, keep=True, y_interva
             else:
                 Y = pbx.stair(*y, int_dtype=int_dtype)
                 sx, sy = pbx.canon_pb(X), pbx.canon_pb(Y)
-            if bare:
+            if ambient is not None:           # the explicit method called inside a block of ANOTHER ambient code
+                import pyuncertainnumber.pba as _pba
+                with _pba.dependency(ambient):
+                    r = getattr(X, op)(Y, dependency=dep)
+            elif bare:
                 r = pbx.PYOPS[op](X, Y)
             else:
                 r = getattr(X, op)(Y, dependency=dep)
@@ -95,6 +100,41 @@ def impl_public(op, dep, x, y, bare=False, int_dtype=False, keep=True, y_interva
         return c
     except BaseException as e:  # noqa
         return ("err", core.err_kind(e))
+
+
+def strict_mode_check(ctx, prop, stream, op, dep, x, y, impl, rerun):
+    """GLOBAL STATE: the same call under `warnings.simplefilter('error')` + `np.errstate(all='raise')` must either raise
+    (an escalated warning propagating is fine) or return the SAME value — never another value (a swallowed warning that
+    makes the code take a different branch)"""
+    if impl[0] != "ok" or ctx.rng.random() > (0.5 if op in ("mul", "div") else 0.15):
+        return
+    strict = rerun()
+    ctx.bump("strict-mode:" + ("raised" if strict[0] == "err" else "value"))
+    if strict[0] == "ok" and strict != impl:
+        k = next((i for i in range(len(impl[1])) if impl[1][i] != strict[1][i] or impl[2][i] != strict[2][i]), 0)
+        ctx.fail({"op": op, "dep": dep, "check": "strict-mode", "symptom": "value-differs-under-warnings-as-errors",
+                  "sx": pbx.sign_class(*x)[:3], "sy": pbx.sign_class(*y)[:3], "public": True, "n": len(x[0])},
+                 {"stream": stream, "op": op, "dep": dep, "x": [x[0][0], x[0][-1], x[1][0], x[1][-1]], "y": [y[0][0], y[0][-1], y[1][0], y[1][-1]],
+                  "step": k, "default": [impl[1][k], impl[2][k]], "strict": [strict[1][k], strict[2][k]]},
+                 f"{op} under {dep}: with warnings escalated to errors the call returns a DIFFERENT p-box (step {k}: "
+                 f"[{strict[1][k]}, {strict[2][k]}] instead of [{impl[1][k]}, {impl[2][k]}]) — an escalated warning was swallowed and another branch taken")
+
+
+def ambient_check(ctx, stream, op, dep, x, y, impl, rerun):
+    """the Frechet result requested EXPLICITLY does not depend on the ambient dependency setting"""
+    both = op in ("mul", "div") and pbx.sign_class(*x)[:3] == "str" and (pbx.sign_class(*y)[:3] == "str" or op == "div")
+    if impl[0] != "ok" or ctx.rng.random() > (1.0 if both else 0.1):
+        return
+    amb = ctx.rng.choice(["p", "i"] if both else ["p", "o", "i"])
+    inside = rerun(amb)
+    ctx.bump("explicit-f-inside-" + amb)
+    if inside != impl:
+        ctx.fail({"op": op, "dep": dep, "check": "ambient", "symptom": "explicit-frechet-depends-on-ambient", "ambient": amb,
+                  "sx": pbx.sign_class(*x)[:3], "sy": pbx.sign_class(*y)[:3], "public": True, "n": len(x[0])},
+                 {"stream": stream, "op": op, "ambient": amb, "x": [x[0][0], x[0][-1], x[1][0], x[1][-1]], "y": [y[0][0], y[0][-1], y[1][0], y[1][-1]],
+                  "outside": pbx.js(impl), "inside": pbx.js(inside)},
+                 f"x.{op}(y, dependency='f') called inside `with dependency('{amb}')` differs from the same call outside: "
+                 f"the default (Frechet) bounds no longer bound every dependence")
 
 
 def recheck_kept(ctx, prop):
@@ -262,6 +302,9 @@ def gen_cases(ctx):
             sy = rng.choice(["pos", "neg"])
         x, y = pbx.int_box200(rng, sx), pbx.int_box200(rng, sy)
         cases.append(("public-int", "public", op, x, y))
+    # both operands straddling zero (the Balch branch of the product), also called inside foreign ambient blocks
+    for _ in range(ctx.scale(6, 120)):
+        cases.append(("public-int", "public", "mul", pbx.int_box200(rng, "str"), pbx.int_box200(rng, "str")))
     # second operand handed over as an Interval OBJECT (every sign class, incl. straddling x straddling)
     for _ in range(ctx.scale(24, 600)):
         op = rng.choice(["add", "sub", "mul", "mul", "div"])
@@ -349,6 +392,12 @@ def run(ctx: core.Check):
                 impl = impl_kinds(op, int(stream.split(":")[2]))
             else:
                 impl = impl_public(op, "f", x, y, bare, int_dtype=idt, y_interval=(stream == "public-ivlobj"))
+                if not bare and stream != "public-ivlobj":
+                    ambient_check(ctx, stream, op, "f", x, y, impl,
+                                  lambda amb: impl_public(op, "f", x, y, False, int_dtype=idt, keep=False, ambient=amb))
+                strict_mode_check(ctx, "C02", stream, op, "f", x, y, impl,
+                                  lambda: impl_public(op, "f", x, y, bare, int_dtype=idt, keep=False,
+                                                      y_interval=(stream == "public-ivlobj"), wmode="error"))
         else:
             impl = impl_raw(rule, op, x, y, int_dtype=idt)
         model = pbx.parse_reply(rep)
